@@ -1,6 +1,7 @@
 """C16 - puzzle URL codecs round-trip and agree with the puzz.link/pzv format"""
 import json
 import multiprocessing as mp
+from harness.par import RobustPool
 
 from harness.common import Check, NPROC, chunks, write_ndjson
 from harness.tlc import run_tlc, MachineryError
@@ -14,7 +15,7 @@ def run(tier, seed):
     res = run_tlc("MC_Url", "MC_Url", workdir=chk.dir, env={"TIER": tier}, timeout=3000)
     chk.add_tlc(res)
     cases = [(r["id"], r["case"]) for r in sorted(res.records, key=lambda r: r["id"])]
-    with mp.get_context("fork").Pool(NPROC) as pool:
+    with RobustPool(NPROC) as pool:
         outs = pool.map(url_codecs.work, chunks(cases, NPROC * 4))
     recs = [x for o in outs for x in o]
     path = chk.dir / "urls.ndjson"
